@@ -167,11 +167,23 @@ def run_unit(seed=None, unit=None, tier="quick", stats=None):
         ptape = Tape((seed, "plan"))
         sched_values = None
     big = tier == "thorough"
-    scn = build_scenario(ptape, max_depth=5 if big else 4, budget=40 if big else 26)
+    focus = None
+    kinds = ("query", "mutation")
+    if unit is not None:
+        focus = unit.get("focus")
+    elif seed[2] % 4 == 3:
+        focus = "seriality"  # every fourth unit: mutation with all-async positions (oracle 5)
+    if focus == "seriality":
+        kinds = ("mutation",)
+    scn = build_scenario(ptape, kinds=kinds, max_depth=5 if big else 4,
+                         budget=40 if big else 26, focus=focus,
+                         max_requests=1 if focus else 3)
+    if focus:
+        bump(stats, "counts", "seriality_focus_units")
     info = {"pairs": [], "digest": None, "sample": None, "render": None}
     if not scn.requests:
         bump(stats, "counts", "rejected")
-        info["unit"] = {"plan": ptape.used(), "scheds": []}
+        info["unit"] = {"plan": ptape.used(), "scheds": [], "focus": focus}
         info["digest"] = "rejected"
         return [], info
     violations = []
@@ -265,7 +277,8 @@ def run_unit(seed=None, unit=None, tier="quick", stats=None):
         sim.close()
     if len(orders) >= 3:
         bump(stats, "probes", "scenarios_with_3plus_completion_orders")
-    info["unit"] = {"plan": ptape.used(), "scheds": [t.used() for t in sched_tapes]}
+    info["unit"] = {"plan": ptape.used(), "scheds": [t.used() for t in sched_tapes],
+                    "focus": focus}
     info["digest"] = digest_of(digests)
     info["render"] = scn.render()
     return violations, info
